@@ -48,7 +48,13 @@ Proof. destruct k; reflexivity. Qed.
 Lemma bytes_eqb_refl a : bytes_eqb a a = true.
 Proof. induction a as [|x a IH]; [reflexivity|]. cbn [bytes_eqb]. rewrite Z.eqb_refl, IH. reflexivity. Qed.
 
+Lemma Ok_inj {E A} (a b : A) : @Ok E A a = Ok b -> a = b.
+Proof. intros H. injection H as H. exact H. Qed.
+
 (* ---------- the header ---------- *)
+Lemma version_of_num_num v : version_of_num (version_num v) = Some v.
+Proof. destruct v; reflexivity. Qed.
+
 Theorem header_roundtrip i hb rest : winput_ok i = true -> writer_new i = Ok hb ->
   exists h, read_header_start (hb ++ rest) = Ok (h, rest)
     /\ header_view h = expected_view i /\ header_warnings h = []
@@ -62,61 +68,52 @@ Proof.
   destruct (capped 64 (wi_map_name i)) as [mn|] eqn:Emn; [|discriminate].
   destruct (i32_max <? zlen (wi_map i)) eqn:Eml; [discriminate|].
   destruct (capped 20 (wi_timestamp i)) as [ts|] eqn:Ets; [|discriminate].
-  injection H as <-.
+  apply Ok_inj in H. subst hb.
   destruct (capped_spec _ _ _ Env) as [_ [Hnv Lnv]].
   destruct (capped_spec _ _ _ Emn) as [_ [Hmn Lmn]].
   destruct (capped_spec _ _ _ Ets) as [_ [Hts Lts]].
   pose proof (zlen_nonneg (wi_map i)) as Hm0.
-  set (ver := match wi_sha256 i with Some _ => V6 | None => V5 end).
-  set (shab := match wi_sha256 i with Some sha => SHA_256_EXTENSION ++ sha | None => [] end).
-  unfold read_header_start. rewrite <- !app_assoc.
-  rewrite (split_at_app magic _ 7 eq_refl). rewrite bytes_eqb_refl. cbn [negb].
-  cbn [app].
-  assert (Hvn : version_of_num (version_num ver) = Some ver) by (subst ver; destruct (wi_sha256 i); reflexivity).
-  rewrite Hvn.
-  rewrite (split_at_app nv _ 64) by (symmetry; exact Lnv).
-  rewrite (split_at_app mn _ 64) by (symmetry; exact Lmn).
-  rewrite rd_be_i32_be32 by (unfold is_i32, i32_min, i32_max in *; lia).
-  replace (zlen (wi_map i) <? 0) with false by lia.
-  rewrite rd_be_u32_be32. rewrite u32_of_small by lia.
-  rewrite (split_at_app (kind_magic (wi_kind i)) _ 8) by (symmetry; apply kind_magic_len).
-  rewrite kind_of_kind_magic.
-  rewrite rd_be_i32_be32 by (unfold is_i32, i32_min, i32_max in *; lia).
-  replace (wi_length i <? 0) with false by lia.
-  rewrite (split_at_app ts _ 20) by (symmetry; exact Lts).
-  assert (Hv4 : version_ge ver V4 = true) by (subst ver; destruct (wi_sha256 i); reflexivity).
-  rewrite Hv4.
-  change (zeros 260) with (be32 0 ++ zeros (4 * 64)). rewrite <- !app_assoc.
-  rewrite rd_be_i32_be32 by reflexivity.
-  change (0 <? 0) with false. change (64 <? 0) with false. cbv iota.
-  rewrite rd_be_i32s_zeros.
-  assert (Hsha_rd :
-    match ver with
-    | V6 =>
-      match split_at 16 (shab ++ wi_map i ++ rest) with
-      | None => Err EEof
-      | Some (u, s) =>
-        if negb (bytes_eqb u SHA_256_EXTENSION) then Err EAssert else
-        match split_at 32 s with None => Err EEof | Some (h, s) => Ok (Some h, s) end
-      end
-    | _ => Ok (None, shab ++ wi_map i ++ rest)
-    end = Ok (wi_sha256 i, wi_map i ++ rest)).
-  { subst ver shab. destruct (wi_sha256 i) as [sha|]; [|reflexivity].
-    apply andb_true_iff in Hsha as [_ Hs32].
-    rewrite <- app_assoc. rewrite (split_at_app SHA_256_EXTENSION _ 16 eq_refl).
+  unfold expected_view.
+  destruct (wi_sha256 i) as [sha|] eqn:Esha.
+  all: unfold read_header_start; rewrite <- !app_assoc;
+    rewrite (split_at_app magic _ 7 eq_refl); rewrite bytes_eqb_refl; cbn [negb];
+    cbn [app]; rewrite version_of_num_num;
+    rewrite (split_at_app nv _ 64) by (symmetry; exact Lnv);
+    rewrite (split_at_app mn _ 64) by (symmetry; exact Lmn);
+    rewrite rd_be_i32_be32 by (unfold is_i32, i32_min, i32_max in *; lia);
+    replace (zlen (wi_map i) <? 0) with false by lia;
+    rewrite rd_be_u32_be32; rewrite u32_of_small by lia;
+    rewrite (split_at_app (kind_magic (wi_kind i)) _ 8) by (symmetry; apply kind_magic_len);
+    rewrite kind_of_kind_magic;
+    rewrite rd_be_i32_be32 by (unfold is_i32, i32_min, i32_max in *; lia);
+    replace (wi_length i <? 0) with false by lia;
+    rewrite (split_at_app ts _ 20) by (symmetry; exact Lts);
+    replace (version_ge _ V4) with true by reflexivity;
+    change (zeros 260) with (be32 0 ++ zeros (4 * 64)); rewrite <- !app_assoc;
+    rewrite rd_be_i32_be32 by reflexivity;
+    change (0 <? 0) with false; change (64 <? 0) with false; cbv iota;
+    rewrite rd_be_i32s_zeros; cbv beta iota.
+  - apply andb_true_iff in Hsha as [_ Hs32].
+    rewrite (split_at_app SHA_256_EXTENSION _ 16 eq_refl).
     rewrite bytes_eqb_refl. cbn [negb].
-    rewrite (split_at_app sha _ 32) by lia. reflexivity. }
-  rewrite Hsha_rd.
-  rewrite (split_at_app (wi_map i) rest) by reflexivity.
-  eexists. split; [reflexivity|].
-  split; [|split; [|split]].
-  - unfold header_view, expected_view, tm_markers. cbn [rh_version rh_net_version rh_map_name rh_map_size rh_map_crc
-      rh_kind rh_length rh_timestamp rh_tm_amount rh_tm_markers rh_sha256 rh_map].
-    rewrite Hnv, Hmn, Hts. rewrite !cstr_raw_padded by assumption. reflexivity.
-  - unfold header_warnings, tm_markers. cbn [rh_net_version rh_map_name rh_timestamp rh_tm_amount rh_tm_markers].
-    rewrite Hnv, Hmn, Hts. rewrite !cstr_weird_padded by assumption. reflexivity.
-  - cbn [rh_version]. subst ver. destruct (wi_sha256 i); reflexivity.
-  - reflexivity.
+    rewrite (split_at_app sha _ 32) by lia. cbv beta iota.
+    rewrite (split_at_app (wi_map i) rest) by reflexivity.
+    eexists. split; [reflexivity|].
+    split; [|split; [|split]]; [| |reflexivity|reflexivity].
+    + unfold header_view, tm_markers. cbn [rh_version rh_net_version rh_map_name rh_map_size rh_map_crc
+        rh_kind rh_length rh_timestamp rh_tm_amount rh_tm_markers rh_sha256 rh_map].
+      rewrite Hnv, Hmn, Hts. rewrite !cstr_raw_padded by assumption. reflexivity.
+    + unfold header_warnings, tm_markers. cbn [rh_net_version rh_map_name rh_timestamp rh_tm_amount rh_tm_markers].
+      rewrite Hnv, Hmn, Hts. rewrite !cstr_weird_padded by assumption. reflexivity.
+  - cbn [app].
+    rewrite (split_at_app (wi_map i) rest) by reflexivity.
+    eexists. split; [reflexivity|].
+    split; [|split; [|split]]; [| |reflexivity|reflexivity].
+    + unfold header_view, tm_markers. cbn [rh_version rh_net_version rh_map_name rh_map_size rh_map_crc
+        rh_kind rh_length rh_timestamp rh_tm_amount rh_tm_markers rh_sha256 rh_map].
+      rewrite Hnv, Hmn, Hts. rewrite !cstr_raw_padded by assumption. reflexivity.
+    + unfold header_warnings, tm_markers. cbn [rh_net_version rh_map_name rh_timestamp rh_tm_amount rh_tm_markers].
+      rewrite Hnv, Hmn, Hts. rewrite !cstr_weird_padded by assumption. reflexivity.
 Qed.
 
 (* ---------- a sequence of chunks ---------- *)
@@ -129,7 +126,7 @@ Lemma chunks_roundtrip v : forall cs prev bs fuel,
 Proof.
   induction cs as [|c cs IH]; intros prev bs fuel Hv Hok Hk H Hf.
   - cbn [write_chunks] in H. injection H as <-. destruct fuel as [|f fuel]; [cbn in Hf; lia|].
-    split; [reflexivity|]. rewrite zlen_nil. cbn [length]. lia.
+    split; [reflexivity|]. rewrite (@zlen_nil Z). cbn [length]. lia.
   - cbn [forallb existsb] in *. apply andb_true_iff in Hok as [Hc Hcs]. apply orb_false_iff in Hk as [Hkc Hkcs].
     cbn [write_chunks] in H.
     destruct (write_chunk prev c) as [[b prev']| | |] eqn:Ew; try discriminate.
